@@ -28,6 +28,8 @@ for job in json.load(open(jobfile)):
         rec["listing_same_name"] = irproj.listing(LinearIR.FilesystemModuleLoader().Load(shared), LinearIR)
         rec["proj"] = irproj.project_module(m, LinearIR)
         program = A.link(m)
+        # the functions a call may name are those of the LINKED program (the module itself plus what it imports)
+        rec["table"] = [{"name": f.Name, "argc": len(f.Type.Arguments)} for f in program.Functions.values()]
         rec["runs"] = []
         for c in job["calls"]:
             obs = A.run_vm(program, "f", {k: A.dec(v) for k, v in c["args"].items()}, {k: A.dec(v) for k, v in c["globals"].items()}, budget=300000)
